@@ -11,6 +11,8 @@
 #include <gatery/hlim/coreNodes/Node_Rewire.h>
 #include <gatery/hlim/coreNodes/Node_Constant.h>
 #include <gatery/hlim/coreNodes/Node_Signal.h>
+#include <gatery/hlim/coreNodes/Node_Multiplexer.h>
+#include <gatery/hlim/Subnet.h>
 
 using namespace gtry;
 using vh::Rng;
@@ -303,6 +305,59 @@ static void runRewireOpt(uint64_t k, Rng &rng, std::ostream &out) {
 	}
 }
 
+// Direct tie of Circuit::removeConstSelectMuxes: a multiplexer with a constant (or non-constant) selector behind 0..2 signal nodes, distinct
+// pins as data inputs, an output pin as consumer; after the pass the consumer's driver tells whether and to which input the mux was bypassed.
+static void runConstSelect(uint64_t k, Rng &rng, std::ostream &out) {
+	std::ostringstream o;
+	try {
+		DesignScope design;
+		auto &circ = design.getCircuit();
+		auto *grp = circ.getRootNodeGroup();
+		size_t w = 1 + rng.below(6), ndata = 1 + rng.below(5);
+		std::vector<hlim::NodePort> data; std::vector<std::string> dataVals;
+		for (size_t i = 0; i < ndata; i++) {
+			UInt x = pinIn(BitWidth(w));
+			auto rp = x.readPort(); hlim::NodePort np{.node = rp.node, .port = rp.port};
+			if (dynamic_cast<hlim::Node_Signal*>(np.node)) np = np.node->getNonSignalDriver(0);
+			data.push_back(np);
+			std::string v; for (size_t b = 0; b < w; b++) v.push_back(rng.chance(1, 6) ? 'x' : (rng.chance(1, 2) ? '1' : '0')); dataVals.push_back(v);
+		}
+		std::string selTxt; hlim::NodePort selPort;
+		if (rng.chance(1, 6)) { UInt sp = pinIn(BitWidth(1 + rng.below(3))); selPort = sp.readPort(); selTxt = "pin"; }
+		else {
+			size_t sw = rng.chance(1, 8) ? 0 : 1 + rng.below(4);
+			std::string v; bool withX = rng.chance(1, 5);
+			size_t val = rng.chance(2, 3) ? rng.below(ndata + 1) : rng.below(size_t(1) << sw);
+			for (size_t b = sw; b-- > 0;) v.push_back(withX && rng.chance(1, 3) ? 'x' : (((val >> b) & 1) ? '1' : '0'));
+			if (v.empty()) v = "-";
+			auto *c = circ.createNode<hlim::Node_Constant>(vh::bitsFromString(v), hlim::ConnectionType{ .type = hlim::ConnectionType::BITVEC, .width = sw });
+			c->moveToGroup(grp);
+			selPort = {.node = c, .port = 0}; selTxt = v;
+		}
+		for (size_t j = rng.below(3); j-- > 0;) { auto *sig = circ.createNode<hlim::Node_Signal>(); sig->moveToGroup(grp); sig->connectInput(selPort); selPort = {.node = sig, .port = 0}; }
+		auto *mux = circ.createNode<hlim::Node_Multiplexer>(ndata);
+		mux->moveToGroup(grp);
+		mux->connectSelector(selPort);
+		for (size_t i = 0; i < ndata; i++) mux->connectInput(i, data[i]);
+		UInt y = UInt(SignalReadPort(mux));
+		auto outPin = pinOut(y);
+		hlim::Subnet subnet = hlim::Subnet::all(circ);
+		circ.removeConstSelectMuxes(subnet);
+		auto d = outPin.node()->getNonSignalDriver(0);
+		std::string res = "?";
+		if (d.node == mux) res = "stay";
+		else for (size_t i = 0; i < ndata; i++) if (d == data[i]) { res = std::to_string(i); break; }
+		o << "case " << k << "cs nodes=" << circ.getNodes().size() << '\n';
+		o << "cs " << selTxt << ' ' << w << ' ' << ndata;
+		for (auto &v : dataVals) o << ' ' << v;
+		o << " -> " << res << "\nend\n";
+		out << o.str();
+	} catch (const std::exception &e) {
+		std::string msg = e.what(); for (auto &ch : msg) if (ch == '\n') ch = ' ';
+		out << "# case " << k << "cs not constructible: " << msg.substr(0, 160) << '\n';
+	}
+}
+
 int main(int argc, char **argv) {
 	uint64_t seed = vh::argU64(argc, argv, 1, 1), ncases = vh::argU64(argc, argv, 2, 50), nsteps = vh::argU64(argc, argv, 3, 25), only = vh::argU64(argc, argv, 4, ~0ull);
 	std::ios::sync_with_stdio(false);
@@ -312,7 +367,7 @@ int main(int argc, char **argv) {
 	for (uint64_t k = 0; k < ncases; k++) {
 		Rng rng = top.fork();
 		if (only != ~0ull && k != only) continue;
-		if (rewireMode) { runRewireOpt(k, rng, std::cout); continue; }
+		if (rewireMode) { if (rng.chance(1, 5)) runConstSelect(k, rng, std::cout); else runRewireOpt(k, rng, std::cout); continue; }
 		vh::GenOpts go;
 		go.nInputs = 2 + rng.below(4);
 		go.nSteps = 3 + rng.below(nsteps);
